@@ -345,6 +345,36 @@ func runC11(c *fw.Ctx) {
 				}
 				m := c11Laws(c, id, "restorer", rf, df, r.Ast.Nodes, r.Dst.Nodes, string(src))
 				c.Count("expanded_identifiers", int64(m))
+				// a second pass: the restored ast is decorated again (fresh decorator on the restorer's
+				// file set) and restored again; the laws hold for both new pairs of maps
+				if cfg == "plain" || cfg == "goast+imports" {
+					var d2 *decorator.Decorator
+					if withImports {
+						d2 = decorator.NewDecoratorWithImports(r.Fset, "example.com/self", goast.New())
+					} else {
+						d2 = decorator.NewDecorator(r.Fset)
+					}
+					var df2 *dst.File
+					var err2 error
+					if sig, detail := fw.Try(func() { df2, err2 = d2.DecorateFile(rf) }); sig != "" {
+						c.Violate("decorate-panic", sig, id+" [second pass]\n"+detail, string(src))
+					} else if err2 == nil && df2 != nil {
+						c11Laws(c, id+" [second pass]", "decorator", rf, df2, d2.Ast.Nodes, d2.Dst.Nodes, string(src))
+						var r3 *decorator.Restorer
+						if withImports {
+							r3 = decorator.NewRestorerWithImports("example.com/self", guess.New())
+						} else {
+							r3 = decorator.NewRestorer()
+						}
+						var rf3 *ast.File
+						if sig, detail := fw.Try(func() { rf3, err2 = r3.RestoreFile(df2) }); sig != "" {
+							c.Violate("restore-panic", sig, id+" [second pass]\n"+detail, string(src))
+						} else if err2 == nil && rf3 != nil {
+							c11Laws(c, id+" [second pass]", "restorer", rf3, df2, r3.Ast.Nodes, r3.Dst.Nodes, string(src))
+							c.Count("second_passes", 1)
+						}
+					}
+				}
 				// the same through the printing entry points (Fprint restores, then prints): the maps
 				// they leave behind describe the ast they created
 				for _, via := range []string{"Restorer.Fprint", "FileRestorer.Fprint"} {
